@@ -272,39 +272,59 @@ def phInF (ph : String) : Bool := ph = "" || ph = "F"
 
 /-! ### flow_prepare_event_data -/
 
+/-- `event_updates`: the `[…B]` tags are removed from the name unless `args` has `Bytes` -/
+def updName (e : Ev) (a : Args) : String :=
+  if hasBytesTag e.name.toList && !a.hasBytes then stripBytes e.name else e.name
+
+/-- `event_updates`: `args["Peers"] = args.pop("Peer")` -/
+def updArgs (a : Args) : Args :=
+  { a with peer := none, peers := match a.peer with | some p => some p | none => a.peers }
+
+/-- the original event after `event_updates` (it is mutated in place and passed on) -/
+def upd (e : Ev) (a : Args) : Ev := { e with name := updName e a, args := some (updArgs a) }
+
+/-- the `Peers` key of the helper: from `args`, `[]` for send-data names, from `Recv_<n>_` in the name, or absent -/
+def helperPeers (name : String) (a' : Args) : Except Err (Option (List Int)) :=
+  match a'.peers with
+  | some pv => do let l ← parsePeers pv; pure (some l)
+  | none =>
+    if isSendData name then pure (some [])
+    else match recvPeer name with
+      | some n => pure (some [(n : Int)])
+      | none => pure none
+
+/-- `_event_type_map[args["Type"]]` if `Type` is in `args`, else `_TYPE_NONE` -/
+def typeOf (a : Args) : Except Err Nat :=
+  match a.typ with
+  | none => pure TYPE_NONE
+  | some t => typeCode t
+
+/-- the keys added to the helper copy; `none`: the name has no sync tag, no helper is produced.
+Order of the error branches as in the code: int() of the peers, (sync), Type lookup, jobhash, assert Peers. -/
+def helperData (e : Ev) (a : Args) : Except Err (Option Helper) := do
+  let name := updName e a
+  let peers? ← helperPeers name (updArgs a)
+  match syncTag name with
+  | none => pure none
+  | some sync =>
+    let typ ← typeOf a
+    if a.jobhash.isNone then throw .key else
+    match peers? with
+    | none => throw .assert
+    | some ps => pure (some ⟨a.collGroup.getD "", sync, ps, typ⟩)
+
 /-- the helper copy (`ph = "F"`, no `args`, `cat` = CollGroup) -/
-def helperOf (e : Ev) (cat sync : String) (peers : List Int) (typ : Nat) : Ev :=
-  { e with ph := "F", args := none, cat := some cat, hlp := some ⟨cat, sync, peers, typ⟩ }
+def mkHelper (e' : Ev) (h : Helper) : Ev :=
+  { e' with ph := "F", args := none, cat := some h.cat, hlp := some h }
 
 def prepare (e : Ev) : Except Err (List Ev) :=
   if !phInXbe e.ph then pure [e] else
   match e.args with
   | none => pure [e]
-  | some a =>
-    -- event_updates (mutates the original event)
-    let name := if hasBytesTag e.name.toList && !a.hasBytes then stripBytes e.name else e.name
-    let a' : Args := { a with peer := none, peers := match a.peer with | some p => some p | none => a.peers }
-    let e' : Ev := { e with name := name, args := some a' }
-    do
-      let peers? : Option (List Int) ←
-        match a'.peers with
-        | some pv => do let l ← parsePeers pv; pure (some l)
-        | none =>
-          if isSendData name then pure (some [])
-          else match recvPeer name with
-            | some n => pure (some [(n : Int)])
-            | none => pure none
-      let cat := a.collGroup.getD ""
-      match syncTag name with
-      | none => pure [e']
-      | some sync =>
-        let typ ← match a.typ with
-          | none => pure TYPE_NONE
-          | some t => typeCode t
-        if a.jobhash.isNone then throw .key else
-        match peers? with
-        | none => throw .assert
-        | some ps => pure [e', helperOf e' cat sync ps typ]
+  | some a => do
+    match ← helperData e a with
+    | none => pure [upd e a]
+    | some h => pure [upd e a, mkHelper (upd e a) h]
 
 def prepareAll : List Ev → Except Err (List Ev)
   | [] => pure []
